@@ -14,6 +14,7 @@ import (
 	"fmt"
 	"os"
 	"sync"
+	"sync/atomic"
 	"time"
 
 	"github.com/safing/portbase/log"
@@ -38,6 +39,8 @@ type script struct {
 	StartTimeoutMs int `json:"startTimeoutMs"` // > 0: shortened module start timeout (for "expire" steps)
 	StopTimeoutMs  int   `json:"stopTimeoutMs"` // > 0: shortened module stop timeout
 	Overstay       []int `json:"overstay"`      // modules whose start routine leaves a worker behind that ignores its context
+	LateCtrl int    `json:"lateCtrl"` // > 0: the goroutine that ran the start routine of this module is held back right before it signals
+	// that the routine has ended (yield point ctrl.done) until the stop routine of the module has begun
 	Eager   bool    `json:"eager"` // issue the next API call as soon as the previous one has returned, even if the
 	// script (the model) expected callbacks to finish first: an early return is then followed by the next call
 }
@@ -57,6 +60,8 @@ type parked struct {
 var overstayRelease = make(chan struct{})
 
 var (
+	sc      script
+	sc0     = &sc
 	tr      *vio.Trace
 	mu      sync.Mutex
 	gates   []*parked // parked callbacks in arrival order
@@ -68,7 +73,18 @@ var (
 
 func name(i int) string { return fmt.Sprintf("m%d", i) }
 
+var (
+	lateHeld    = make(chan struct{}) // closed when the held goroutine may go on
+	lateOnce    sync.Once
+	lateArrived atomic.Bool
+)
+
 func gate(m int, cb string) error {
+	if cb == "stop" && sc0.LateCtrl == m && lateArrived.Load() {
+		// the stop routine has begun: now the tail of the start routine's goroutine runs, and gets time to do its damage
+		lateOnce.Do(func() { close(lateHeld) })
+		time.Sleep(30 * time.Millisecond)
+	}
 	p := &parked{m: m, cb: cb, ch: make(chan outcome, 1), at: time.Now()}
 	mu.Lock()
 	tr.Emit(map[string]any{"e": "begin", "m": m, "cb": cb, "h": 0})
@@ -221,7 +237,6 @@ func main() {
 		fmt.Fprintln(os.Stderr, "usage: life <script> <trace> [skip]")
 		os.Exit(2)
 	}
-	var sc script
 	first := true
 	err := vio.ReadLines(os.Args[1], func(line []byte) error {
 		if !first {
@@ -241,6 +256,28 @@ func main() {
 	}
 	defer tr.Close()
 	log.SetLogLevel(log.CriticalLevel)
+	sc0 = &sc
+	if sc.LateCtrl > 0 {
+		seen := 0
+		var hmu sync.Mutex
+		modules.VerifHook = func(point string, m *modules.Module) {
+			if point != "ctrl.done" || m == nil || m.Name != name(sc.LateCtrl) {
+				return
+			}
+			hmu.Lock()
+			seen++
+			second := seen == 2 // control routines of a module end in this order: prep, start, stop
+			hmu.Unlock()
+			if !second {
+				return
+			}
+			lateArrived.Store(true)
+			select {
+			case <-lateHeld:
+			case <-time.After(20 * time.Second):
+			}
+		}
+	}
 
 	deps := make([][]int, sc.N)
 	for i := range deps {
